@@ -1,4 +1,5 @@
 """C04 Quantification, restriction, apply-and-quantify, substitution: wiring and dualisation tables"""
+import eprep
 import ecache
 import eunits
 import ewrap
@@ -38,4 +39,10 @@ def run(ctx):
     n += estep.run(ctx, F, kinds=("zbdd", "mtbdd"), parts=("restrict",))
     estep.check_zbdd_restrict_base(ctx, F)
     ctx.floor("E-TABLE.step", "situations of the recursive step (quant, apply_quant, restrict)", n, 2500)
-    ctx.not_decided = "construction of the substitution table (substitute_prepare, beyond its unit discipline), behaviour under memory exhaustion"
+    ctx.explain("E-TABLE.prep: substitute_prepare (BDD, BCDD) builds the table the substitution step reads: one iteration of its fill "
+                "loop stores Some(r) at var_to_level(v) (growing the table with None as needed, other entries untouched); one "
+                "iteration of its completion loop, which enumerates the table in order, clones a mapped entry and builds the "
+                "variable's own function node(level; true, false) for an unmapped one.")
+    n = eprep.run(ctx, F)
+    ctx.floor("E-TABLE.prep", "interpreted loop iterations", n, 14)
+    ctx.not_decided = "the induction over the diagram, behaviour under memory exhaustion"
